@@ -1,6 +1,7 @@
 """C03 -- evaluate()/check() agree with the specification's semantics on closed trees."""
 from vlib import rt, gen, fml
 from vlib.gen import chance, pick
+from vlib.runner import reraise_if_timeout
 
 ID = "C03"
 CASES = {"quick": 6000, "thorough": 240000}
@@ -196,12 +197,14 @@ def run_isla(text, g, t, want_check=True):
         out["parse_error"] = "SyntaxError: " + str(e)[:200]
         return out
     except Exception as e:
+        reraise_if_timeout(e)
         out["parse_error"] = type(e).__name__ + ": " + str(e)[:200]
         return out
     try:
         r = evaluate(pf, dt, g, SP, MP)
         out["evaluate"] = "TRUE" if r.is_true() else "FALSE" if r.is_false() else "UNKNOWN"
     except Exception as e:
+        reraise_if_timeout(e)
         out["evaluate"] = "raises:" + type(e).__name__
         out["evaluate_detail"] = str(e)[:300]
     if out["evaluate"] == "UNKNOWN":
@@ -211,6 +214,7 @@ def run_isla(text, g, t, want_check=True):
                 out["evaluate_first"] = "UNKNOWN"
                 out["evaluate"] = "TRUE" if r.is_true() else "FALSE" if r.is_false() else "UNKNOWN"
             except Exception as e:
+                reraise_if_timeout(e)
                 out["evaluate"] = "raises:" + type(e).__name__
                 out["evaluate_detail"] = str(e)[:300]
     if want_check:
@@ -218,6 +222,7 @@ def run_isla(text, g, t, want_check=True):
         try:
             s = ISLaSolver(g, text)
         except Exception as e:
+            reraise_if_timeout(e)
             out["check"] = "ctor_raises:" + type(e).__name__
             out["check_detail"] = str(e)[:300]
             return out
@@ -232,9 +237,11 @@ def run_isla(text, g, t, want_check=True):
                 except UnknownResultError:
                     pass
                 except Exception as e:
+                    reraise_if_timeout(e)
                     out["check"] = "raises:" + type(e).__name__
                     out["check_detail"] = str(e)[:300]
         except Exception as e:
+            reraise_if_timeout(e)
             out["check"] = "raises:" + type(e).__name__
             out["check_detail"] = str(e)[:300]
     return out
@@ -262,6 +269,10 @@ def judge(case):
     if "parse_error" in obs:
         return {"labels": labels + ["parse_rejected"], "nontrivial": False, "violations": [], "inconclusive": "parse_rejected",
                 "sample": {"text": text, "error": obs["parse_error"]}}
+    if rt.has_unit_cycle(cg) and any("RecursionError" in str(obs.get(k, "")) for k in ("evaluate", "check")):
+        # infinitely ambiguous grammar (A =>+ A): outside the Earley parser's domain (C10), which ISLa uses to
+        # parse match expressions
+        return {"labels": labels + ["cyclic_grammar_recursion"], "nontrivial": False, "violations": [], "inconclusive": "cyclic_grammar_recursion"}
     labels.append("expected_true" if exp else "expected_false")
     if "evaluate_first" in obs or "check_first" in obs:
         labels.append("unknown_at_500ms_decided_at_20s")
